@@ -94,9 +94,19 @@ def invoke(nrf, op, a):
     if op.endswith("="):
         setattr(nrf, op[:-1], a)
         return None
-    if op in _TWO or op in ("set_auto_retries", "interrupt_config", "open_rx_pipe"):
+    if op in ("open_rx_pipe", "open_tx_pipe"):
+        # the address is the caller's own mutable buffer, re-used for something else right after the call (the
+        # multiceiver idiom `buf[0] = ...; open_rx_pipe(i, buf)`): the driver must have taken what it needs
+        buf = bytearray(a[1] if op == "open_rx_pipe" else a)
+        try:
+            return nrf.open_rx_pipe(a[0], buf) if op == "open_rx_pipe" else nrf.open_tx_pipe(buf)
+        finally:
+            for i in range(len(buf)):
+                buf[i] ^= 0xA5
+            buf += b"\x11"
+    if op in _TWO or op in ("set_auto_retries", "interrupt_config"):
         return getattr(nrf, op)(*a)
-    if op in ("get_auto_ack", "get_dynamic_payloads", "get_payload_length", "close_rx_pipe", "open_tx_pipe", "address"):
+    if op in ("get_auto_ack", "get_dynamic_payloads", "get_payload_length", "close_rx_pipe", "address"):
         return getattr(nrf, op)(a)
     if op == "get_auto_retries":
         return nrf.get_auto_retries()
@@ -152,6 +162,19 @@ def reenter(nrf, chip):
     except Exception as e:  # noqa  (a shadow holding a value that cannot even be written)
         exc = type(e).__name__
     return dict(k="reenter", pre=pre, post=state(chip), exc=exc)
+
+
+def construct(chip):
+    """a new RF24 object on an existing (possibly already configured, never power-cycled) chip"""
+    from . import sim
+    from circuitpython_nrf24l01.rf24 import RF24
+    pre = state(chip)
+    exc, nrf = "none", None
+    try:
+        nrf = RF24(sim.FakeSpiDev(chip), 0, sim.Pin(chip))
+    except Exception as e:  # noqa
+        exc = type(e).__name__
+    return nrf, dict(k="construct", pre=pre, post=state(chip), exc=exc)
 
 
 def arg_repr(a):
